@@ -5,6 +5,7 @@ package har
 import (
 	"net/http"
 	"net/url"
+	"sync"
 
 	"github.com/google/martian/v3/zzverif/vf"
 )
@@ -256,6 +257,137 @@ func VerifC17Sequence() {
 			model = nil
 		}
 		checkState(l, model, "seq")
+	}
+	vf.Reach("done")
+}
+
+// ---- concurrent executions against the sequential model ----
+
+type cop struct {
+	kind int // 0 RecordRequest, 1 RecordResponse, 2 Export, 3 ExportAndReset
+	id   string
+}
+
+type cent struct {
+	id   string
+	done bool
+}
+
+func render(es []cent) string {
+	s := "["
+	for _, e := range es {
+		s += e.id
+		if e.done {
+			s += "+"
+		}
+		s += " "
+	}
+	return s + "]"
+}
+
+// capply is the sequential specification of one operation.
+func capply(st []cent, o cop) ([]cent, string) {
+	switch o.kind {
+	case 0:
+		for _, e := range st {
+			if e.id == o.id {
+				return st, "duplicate"
+			}
+		}
+		return append(append([]cent(nil), st...), cent{id: o.id}), "ok"
+	case 1:
+		out := append([]cent(nil), st...)
+		for i := range out {
+			if out[i].id == o.id {
+				out[i].done = true
+			}
+		}
+		return out, ""
+	case 2:
+		return st, render(st)
+	default:
+		var completed, pending []cent
+		for _, e := range st {
+			if e.done {
+				completed = append(completed, e)
+			} else {
+				pending = append(pending, e)
+			}
+		}
+		return pending, render(completed)
+	}
+}
+
+func entriesOf(es []*Entry) []cent {
+	var out []cent
+	for _, e := range es {
+		out = append(out, cent{id: e.ID, done: e.Response != nil})
+	}
+	return out
+}
+
+func runReal(l *Logger, o cop) string {
+	switch o.kind {
+	case 0:
+		if l.RecordRequest(o.id, mkReq()) != nil {
+			return "duplicate"
+		}
+		return "ok"
+	case 1:
+		l.RecordResponse(o.id, mkRes(200))
+		return ""
+	case 2:
+		return render(entriesOf(l.Export().Log.Entries))
+	default:
+		return render(entriesOf(l.ExportAndReset().Log.Entries))
+	}
+}
+
+// VerifC17Concurrent: two goroutines perform one operation each on a shared
+// log (optionally holding one pending entry), under every schedule within the
+// preemption bound. The two results and the final contents must be those of
+// one of the two sequential orders of the same operations.
+func VerifC17Concurrent() {
+	ids := []string{"a", "b"}
+	l := NewLogger()
+	var st []cent
+	if vf.Choice("one-pending-entry-before", 2) == 1 {
+		l.RecordRequest("a", mkReq())
+		st = []cent{{id: "a"}}
+	}
+	ops := [2]cop{}
+	ops[0] = cop{kind: vf.Choice("first-goroutine-op", 2), id: ids[vf.Choice("id", 2)]}
+	ops[1] = cop{kind: vf.Choice("second-goroutine-op", 4), id: ids[vf.Choice("id", 2)]}
+	var got [2]string
+	var wg sync.WaitGroup
+	for k := 0; k < 2; k++ {
+		k := k
+		wg.Add(1)
+		go func() {
+			defer wg.Done()
+			got[k] = runReal(l, ops[k])
+		}()
+	}
+	wg.Wait()
+	final := render(entriesOf(l.Export().Log.Entries))
+
+	matches := false
+	for _, order := range [][2]int{{0, 1}, {1, 0}} {
+		var want [2]string
+		s := st
+		for _, k := range order {
+			s, want[k] = capply(s, ops[k])
+		}
+		if want == got && render(s) == final {
+			matches = true
+		}
+	}
+	vf.Assert(matches, "concurrent-outcome-equals-a-sequential-order")
+	// whatever the order, an id is listed at most once
+	seen := map[string]bool{}
+	for _, e := range l.Export().Log.Entries {
+		vf.Assert(!seen[e.ID], "an-id-is-listed-at-most-once")
+		seen[e.ID] = true
 	}
 	vf.Reach("done")
 }
